@@ -152,6 +152,21 @@ class RandomChooser(Chooser):
         return steps[0]
 
 
+class PolicyChooser(Chooser):
+    """Deterministic corner policies: finish as late as possible (only when no event is queued) or as
+    early as possible, taking the oldest or the newest running job."""
+
+    def __init__(self, late: bool, newest: bool):
+        self.late, self.newest = late, newest
+
+    def choose(self, choices, d):
+        fins = [c for c in choices if c[0] == "finish"]
+        steps = [c for c in choices if c[0] == "step"]
+        if fins and (not steps or not self.late):
+            return fins[-1] if self.newest else fins[0]
+        return steps[0]
+
+
 class PathChooser(Chooser):
     """Follow a list of acts [["step"] | ["finish", path]]; afterwards (or on divergence) default."""
 
